@@ -257,7 +257,14 @@ func c02Packet(b *mon.B, idx int, r *gen.R, bodyLen int) {
 	}
 	// decode-first: what decoded without error re-encodes to the same bytes
 	re, err := d.MarshalBinary()
-	if err != nil || !bytes.Equal(re, enc) {
+	wantRe := enc
+	if h.SeqNo == 2 {
+		// the header decoder sets the single-connect flag on every packet numbered 2 (deliberate,
+		// see header.go): the decoded value carries it, and so does its encoding
+		wantRe = append([]byte{}, enc...)
+		wantRe[3] |= byte(tq.SingleConnect)
+	}
+	if err != nil || !bytes.Equal(re, wantRe) {
 		b.Violate(idx, "C02/decode-encode-differs/packet", fmt.Sprintf("a packet with %d body bytes decoded without error but the decoded value does not re-encode to the same bytes (error: %v)", bodyLen, err), map[string]interface{}{"bytes": hexs(enc)})
 		return
 	}
